@@ -37,7 +37,8 @@ ASSUMPTIONS = ['faults that the deep embedding cannot represent (op_param of wro
                'API-built design together with sanity_block and a dependency order (the real yield order)',
                'the hook replaces set.pop() order by a seeded choice; CPython set order itself is one such schedule']
 TRUSTED = ['Netlist/Sanity.v (hand model of sanity_check; its per-net part sanity_net is proved equal to the guard list '
-           'regenerated from Block.sanity_check_net), Netlist/Iter.v (hand model of Block.__iter__), '
+           'regenerated from Block.sanity_check_net and its connectivity conjuncts to the set algebra regenerated from '
+           'Block.sanity_check; name uniqueness, single driver and by-name bookkeeping stay hand-modelled), Netlist/Iter.v (hand model of Block.__iter__), '
            'topo_sortedb as the definition of dependency order',
            'py/genfrag_C10.py: net-shape record, mapping of Python type tests, shape_of (fixed text in Gen/SanityNet.v)']
 
